@@ -15,7 +15,8 @@ EXPLANATION = (
     "true without a filter; (5) the reserved name \"deny\" agrees between set_rules and connectors::from_value; (6) filter attributes are "
     "projected from the ContextProps field of the same meaning and the script context is built from the routed context's props; "
     "(7) cidr_match feeds argument 0 to the IpAddr parser and argument 1 to the AnyIpCidr parser, parse failure yields false."
-    ' (6b) everything reachable from the Accessible::get implementations of request / target / source is a method of the address value itself and no address-rewriting std call occurs there; v6->v4 normalisation anywhere in the crate uses to_ipv4_mapped, never the lossy to_ipv4.')
+    ' (6b) everything reachable from the Accessible::get implementations of request / target / source is a method of the address value itself and no address-rewriting std call occurs there; v6->v4 normalisation anywhere in the crate uses to_ipv4_mapped, never the lossy to_ipv4.'
+    " (6c) udp-target: in the direct connector's UDP writer a destination other than the session target is chosen only under `session target is unspecified`; the first-match search may also be spelled as a for loop with break.")
 RULE_TEXT = "instances = dominance queries, call sites and table rows listed above"
 TRUSTED = ["cidr::AnyIpCidr::contains implements CIDR containment", "milu evaluator computes the filter's value (C08 covers soundness only)"]
 NOT_DECIDED = ["CIDR arithmetic itself", "that the evaluator computes the mathematical value of a filter"]
